@@ -16,10 +16,9 @@ fields a method leaves alone are visibly the original ones.
 
 Not modelled: positions and identities (the output tree is position-free); `formatter.lastSemiColon`
 (written by newSemicolonTkn, reset by formatStmts before its only read: dead state — the translator
-pins the text of both); Go slice capacity (formatStmts' `insert` shifts in place when the statement
-slice has spare capacity while the `range` loop is still walking it: the model is the fresh-allocation
-behaviour, the harness hands the real formatter exact-capacity slices; inline HTML is a recorded
-finding of C17).  A Go panic (nil child dereferenced, `make` with negative length) is `none`.
+pins the text of both).  formatStmts walks a copy of the statement list (since the repair e1694f9), so
+its `insert` is the list insertion below whatever the capacity of the Go slice.  A Go panic (nil child
+dereferenced, `make` with negative length) is `none`.
 
 Tie: `diff-formatter` — the formatted tree (every token id, value and free-floating entry of every
 node) and the bytes the printer model makes of it against the real formatter and printer.
